@@ -101,6 +101,8 @@ func (p *Projector) Feed(e mem.Ev) {
 		case "send":
 			if m := AsM(e["m"]); S(m, "t") == "Startup" && p.preMsg == nil {
 				p.preMsg = m
+			} else if S(m, "t") == "SSLRequest" && p.preMsg == nil {
+				p.sslWait++ // part of the preamble: its one-byte answer is not a protocol message
 			} else {
 				p.held = append(p.held, e) // pipelined behind the startup packet: belongs after the preamble
 			}
